@@ -1,6 +1,6 @@
 (** C10 — records are cut independently of one another.  Statements only. *)
 From TucModel Require Import Base.Bytes Model.Bounds Model.Scan Model.Opt Model.CutBytes Model.CutStr
-     Model.FastLane Proofs.C10.
+     Model.FastLane Model.Stream Proofs.C04 Proofs.C10 Proofs.C10Stream.
 
 (** general path (-f with any options, -c, --json): for every A, B the run over
     (A ++ EOL) ++ B is the run over A ++ EOL followed by the run over B *)
@@ -29,7 +29,44 @@ Theorem C10_failure_is_preserved_fast :
     read_and_cut_fast o ((A ++ [o_eol o]) ++ B) = Some (Fail pre).
 Proof. exact C10_failure_prefix_fast. Qed.
 
+(** -M: the fixed-memory reader is one per-record function ([stream_cut]: the reader started
+    afresh on that record alone) mapped over the records of the input - nothing computed for
+    one record (pending bound, field counter, truncation flag, early-stop state) reaches the
+    next.  [no_adjacent_fillers] holds for every bounds list the parser builds (C04). *)
+Theorem C10_fixed_memory_is_per_record :
+  forall (so : sopt) (input : bytes),
+    no_adjacent_fillers (s_items so) ->
+    Some (run_stream_whole so input) = run_records (stream_cut so) (records (s_eol so) input) [].
+Proof. exact stream_whole_per_record. Qed.
+
+Theorem C10_fixed_memory :
+  forall (so : sopt) (A B : bytes),
+    no_adjacent_fillers (s_items so) ->
+    Some (run_stream_whole so ((A ++ [s_eol so]) ++ B))
+    = seq_outcome (Some (run_stream_whole so (A ++ [s_eol so]))) (Some (run_stream_whole so B)).
+Proof. exact C10_stream. Qed.
+
+(** ... under every way of cutting the three inputs into reads *)
+Theorem C10_fixed_memory_any_chunking :
+  forall (so : sopt) (A B : bytes) (cs csA csB : list bytes),
+    no_adjacent_fillers (s_items so) ->
+    chunks_ok cs -> chunks_ok csA -> chunks_ok csB ->
+    concat cs = (A ++ [s_eol so]) ++ B -> concat csA = A ++ [s_eol so] -> concat csB = B ->
+    Some (run_stream so cs) = seq_outcome (Some (run_stream so csA)) (Some (run_stream so csB)).
+Proof. exact C10_stream_chunked. Qed.
+
+Theorem C10_failure_is_preserved_fixed_memory :
+  forall (so : sopt) (A B pre : bytes),
+    no_adjacent_fillers (s_items so) ->
+    run_stream_whole so (A ++ [s_eol so]) = Fail pre ->
+    run_stream_whole so ((A ++ [s_eol so]) ++ B) = Fail pre.
+Proof. exact C10_stream_failure_prefix. Qed.
+
 Print Assumptions C10_general_path.
 Print Assumptions C10_fast_path.
 Print Assumptions C10_failure_is_preserved.
 Print Assumptions C10_failure_is_preserved_fast.
+Print Assumptions C10_fixed_memory_is_per_record.
+Print Assumptions C10_fixed_memory.
+Print Assumptions C10_fixed_memory_any_chunking.
+Print Assumptions C10_failure_is_preserved_fixed_memory.
